@@ -1324,7 +1324,12 @@ class Executor:
                     out.append((p, r))
                     continue
                 n = p.hget("ghost.ny")
-                p.hset("ghost.ylog", z3.Store(p.hget("ghost.ylog"), n, ref_of(r)))
+                if isinstance(r, T) and len(r.items) == 2:
+                    # `yield a, b`: two parallel output logs
+                    p.hset("ghost.ylog", z3.Store(p.hget("ghost.ylog"), n, ref_of(r.items[0])))
+                    p.hset("ghost.ylog2", z3.Store(p.hget("ghost.ylog2"), n, ref_of(r.items[1])))
+                else:
+                    p.hset("ghost.ylog", z3.Store(p.hget("ghost.ylog"), n, ref_of(r)))
                 p.hset("ghost.ny", n + 1)
                 out.append((p, NORM))
             return out
